@@ -8,7 +8,9 @@ import pickle
 import random
 
 import gevent
+import logging
 
+logging.disable(logging.CRITICAL)
 CHANNELS = ["a", "b"]
 
 
@@ -81,10 +83,7 @@ class World:
             if jobid in conn.running_jobs:
                 conn.rpc_qfinish(jobid, result={"r": 1} if not error else None, error=error)
                 return True
-        if jobid in self.wq.id2job:
-            self.conns[1].rpc_qfinish(jobid, result={"r": 1} if not error else None, error=error)
-            return True
-        return False
+        return False      # only the worker holding a job reports it finished
 
     def kill(self, jobid):
         self.conns[1].rpc_qkill([jobid])
@@ -173,7 +172,9 @@ def apply(world, op):
     elif kind in ("finish", "kill"):
         if op[1] >= len(world.added):
             return False
-        (world.finish if kind == "finish" else world.kill)(world.added[op[1]])
+        if kind == "finish":
+            return world.finish(world.added[op[1]])
+        world.kill(world.added[op[1]])
     elif kind == "clock":
         world.advance()
     elif kind == "disconnect":
